@@ -298,6 +298,8 @@ def swap (cx : Cx) (ps : List Proof) (outs : List BMsg) (outputsVerdict : Option
 
 inductive InvReq where
   | inv (h : Nat)
+  /-- an invoice `f` made by somebody else that carries the PAYMENT HASH of invoice `h` (any amount; F16) -/
+  | forged (f h : Nat)
   | bad
   deriving DecidableEq, Repr, Inhabited
 
@@ -317,23 +319,32 @@ def meltQuotePlan (cfg : Cfg) (msat : UInt64) (mpp : Option UInt64) (isInternal 
 /-- Quotes that can be settled internally carry no fee reserve. -/
 def reserveFor (internal : Bool) (fee0 : UInt64) : UInt64 := if internal then 0 else fee0
 
+def eForeignInvoice : E := (20009, "invoice does not match the mint quote with the same payment hash")
+
+/-- `Mint.RequestMeltQuote` for the invoice `i` whose payment hash is `h` (the mint's own invoices and ordinary external
+    ones: `i = h`).  After F16 a mint quote with that payment hash makes the request an internal one only if the request IS
+    that quote's invoice; any other invoice with the same hash is refused. -/
+def meltQuoteFor (cx : Cx) (qid : Nat) (i h : Nat) (msatOf : Nat → UInt64) (mpp : Option UInt64) : PM MeltQ := do
+  failIf (msatOf i == 0) (20009, "invoice-no-amount")
+  let mq ← eff (.getMintQuoteByHash h)
+  failIf (mq.toBool && i != h) eForeignInvoice
+  let plan ← liftE (meltQuotePlan cx.cfg (msatOf i) mpp mq.toBool)
+  failIf (cx.cfg.maxMelt > 0 && plan.2.2 > cx.cfg.maxMelt) eMeltAmountExceeded
+  let ex ← eff (.getMeltQuoteByReq i)
+  failIf (ex.toBool) eMeltQuoteExists
+  let fee0 ← eff (.lnFeeReserve plan.2.2)
+  let q : MeltQ := { id := qid, inv := i, hash := h, amount := plan.2.2, feeReserve := reserveFor mq.toBool fee0,
+                     state := .unpaid, preimage := 0, isMpp := plan.1, amountMsat := plan.2.1 }
+  dbTry (.saveMeltQuote q)
+  pure q
+
 /-- `Mint.RequestMeltQuote`; `msatOf` is what `decodepay` reads from the invoice. -/
 def requestMeltQuote (cx : Cx) (qid : Nat) (inv : InvReq) (msatOf : Nat → UInt64) (unitSat : Bool) (mpp : Option UInt64) : PM MeltQ := do
   failIf (!unitSat) (11005, "unit-not-supported")
   match inv with
   | .bad => throw (20009, "bad-invoice")
-  | .inv h =>
-    failIf (msatOf h == 0) (20009, "invoice-no-amount")
-    let mq ← eff (.getMintQuoteByHash h)
-    let plan ← liftE (meltQuotePlan cx.cfg (msatOf h) mpp mq.toBool)
-    failIf (cx.cfg.maxMelt > 0 && plan.2.2 > cx.cfg.maxMelt) eMeltAmountExceeded
-    let ex ← eff (.getMeltQuoteByReq h)
-    failIf (ex.toBool) eMeltQuoteExists
-    let fee0 ← eff (.lnFeeReserve plan.2.2)
-    let q : MeltQ := { id := qid, inv := h, hash := h, amount := plan.2.2, feeReserve := reserveFor mq.toBool fee0,
-                       state := .unpaid, preimage := 0, isMpp := plan.1, amountMsat := plan.2.1 }
-    dbTry (.saveMeltQuote q)
-    pure q
+  | .inv h => meltQuoteFor cx qid h h msatOf mpp
+  | .forged f h => meltQuoteFor cx qid f h msatOf mpp
 
 /-- `removePendingProofsForQuote`: errors are returned raw (the callers wrap them as DB errors). -/
 def removePendingForQuote (qid : Nat) : PM (List PRow) := do
